@@ -629,7 +629,13 @@ func planC15(prop string, seed uint64, tier string, idx int) *Plan {
 				g.pushManifest(repo, arts[g.r.intn(len(arts))], "", false)
 			}
 		case 4:
-			g.add(Op{K: "sess", Act: "post", Repo: repo, Sess: g.nextSess(), Obj: g.p.Objs[subj].Config})
+			sn := g.nextSess()
+			g.add(Op{K: "sess", Act: "post", Repo: repo, Sess: sn, Obj: g.p.Objs[subj].Config})
+			if gr := k.grace().Milliseconds(); gr > 0 && gr <= 1000 && k.FaultRate == 0 && g.r.chance(60) {
+				// a slow client: the pieces of the body are further apart than the grace period, the session expires under
+				// the request (a client-side condition: the answer is a 4xx)
+				g.add(Op{K: "sess", Act: g.r.str("patch", "put"), Sess: sn, Obj: g.p.Objs[subj].Config, A: 1 << 20, B: 1, Ms: gr * 3 / 2})
+			}
 		case 5:
 			g.add(Op{K: "refs", Repo: repo, Obj: subj, A: 1})
 		case 6:
